@@ -12,11 +12,14 @@ import (
 	"github.com/decred/dcrd/dcrec/secp256k1/v4"
 	dcrecdsa "github.com/decred/dcrd/dcrec/secp256k1/v4/ecdsa"
 
+	"github.com/ipfs/go-cid"
 	"github.com/ipld/go-ipld-prime"
 	"github.com/ipld/go-ipld-prime/codec/dagcbor"
 	"github.com/ipld/go-ipld-prime/codec/dagjson"
 	"github.com/ipld/go-ipld-prime/datamodel"
+	"github.com/multiformats/go-multihash"
 
+	"github.com/ucan-wg/go-ucan/pkg/container"
 	"github.com/ucan-wg/go-ucan/token"
 	"github.com/ucan-wg/go-ucan/token/delegation"
 	"github.com/ucan-wg/go-ucan/token/invocation"
@@ -77,6 +80,67 @@ func c06Decoders(kind, codec string) []namedDecoder {
 			}
 			return invocation.FromIPLD(n)
 		}},
+	}
+}
+
+// c06ContainerDecoders: the same bytes offered inside a container, alone or next to an invocation that is
+// genuinely signed by some other party (the forger) and names the CID of those bytes as its proof. A
+// container reader is a decoder: what it returns must have passed verification of its OWN signature.
+func c06ContainerDecoders() []namedDecoder {
+	via := func(format string, pin bool) func(b []byte) (any, error) {
+		return func(b []byte) (any, error) {
+			h := sha256.Sum256(b)
+			mh, _ := multihash.Encode(h[:], multihash.SHA2_256)
+			c := cid.NewCidV1(cid.DagCBOR, mh)
+			w := container.NewWriter()
+			w.AddSealed(c, b)
+			pinCid := cid.Undef
+			if pin {
+				forger := fixtures.Get("ed25519", 2)
+				inv, err := invocation.New(forger.DID, forger.DID, "/pin", []cid.Cid{c}, invocation.WithNonce(fixedNonce), invocation.WithoutInvokedAt())
+				if err != nil {
+					panic(err)
+				}
+				data, pc, err := inv.ToSealed(forger.Priv)
+				if err != nil {
+					panic(err)
+				}
+				w.AddSealed(pc, data)
+				pinCid = pc
+			}
+			var rd container.Reader
+			var err error
+			if format == "car" {
+				var out []byte
+				if out, err = w.ToCar(); err == nil {
+					rd, err = container.FromCar(out)
+				}
+			} else {
+				var out []byte
+				if out, err = w.ToCbor(); err == nil {
+					rd, err = container.FromCbor(out)
+				}
+			}
+			if err != nil {
+				return nil, err
+			}
+			for tc, t := range rd.GetAllDelegations() {
+				if tc != pinCid {
+					return t, nil
+				}
+			}
+			for tc, t := range rd.GetAllInvocations() {
+				if tc != pinCid {
+					return t, nil
+				}
+			}
+			return nil, fmt.Errorf("the container reader succeeds without returning the entry")
+		}
+	}
+	return []namedDecoder{
+		{"container.FromCbor", via("cbor", false)},
+		{"container.FromCbor(next to an invocation whose proof list names the entry)", via("cbor", true)},
+		{"container.FromCar(next to an invocation whose proof list names the entry)", via("car", true)},
 	}
 }
 
@@ -213,7 +277,15 @@ func c06ValRange(op string) int {
 
 // c06Check runs every decoder on mutated and applies the oracle.
 func c06Check(ctx *engine.Ctx, art c06Artefact, origView TokView, orig, mutated []byte, rc func() any, tag string) {
-	for _, d := range c06Decoders(art.Kind, art.Codec) {
+	c06CheckC(ctx, art, origView, orig, mutated, rc, tag, true)
+}
+
+func c06CheckC(ctx *engine.Ctx, art c06Artefact, origView TokView, orig, mutated []byte, rc func() any, tag string, containers bool) {
+	decs := c06Decoders(art.Kind, art.Codec)
+	if containers && art.Codec == "cbor" {
+		decs = append(decs, c06ContainerDecoders()...)
+	}
+	for _, d := range decs {
 		ctx.Eval(1)
 		ctx.Trans(1)
 		got, err := d.Fn(mutated)
@@ -254,7 +326,7 @@ func c06ByteSub() *engine.Sub {
 	}
 	return &engine.Sub{
 		Name: "byte-level-corruption",
-		Rule: "for each sealed artefact ({delegation, invocation} x algorithm x {DAG-CBOR sealed bytes, DAG-JSON text}): the unmodified bytes, every single-bit flip, every single-byte deletion, every truncation length, and (Ed25519, secp256k1 and P-256 artefacts in thorough; the Ed25519 artefacts in quick) every byte substitution and every single-byte insertion at every offset, through every decoder (7 CBOR / 3 JSON entry points): error, or a token whose every field equals the original's and which passes an independent signature re-verification; non-trivial = mutations that some decoder accepts or that reach signature verification",
+		Rule: "for each sealed artefact ({delegation, invocation} x algorithm x {DAG-CBOR sealed bytes, DAG-JSON text}): the unmodified bytes, every single-bit flip, every single-byte deletion, every truncation length, and (Ed25519, secp256k1 and P-256 artefacts in thorough; the Ed25519 artefacts in quick) every byte substitution and every single-byte insertion at every offset, through every decoder (7 CBOR / 3 JSON entry points; for deletions and truncations (Ed25519 artefacts: also bit flips) of the sealed bytes also through container.FromCbor / FromCar, alone and next to a genuinely signed invocation of another party whose proof list names the CID of the modified bytes): error, or a token whose every field equals the original's and which passes an independent signature re-verification; non-trivial = mutations that some decoder accepts or that reach signature verification",
 		Bound: func(t string) string {
 			if t == "thorough" {
 				return "6 algorithms x 2 kinds x 2 codecs; bit flips, deletions, truncations at every offset for all; 255 substitutions and 256 insertions at every offset for Ed25519, secp256k1 and P-256"
@@ -325,9 +397,9 @@ func c06ByteSub() *engine.Sub {
 					ctx.Nontrivial(1)
 				}
 				v := v
-				c06Check(ctx, cs.Art, origView, orig, m, func() any {
+				c06CheckC(ctx, cs.Art, origView, orig, m, func() any {
 					return &c06Case{Art: cs.Art, Op: cs.Op, Off: cs.Off, Val: v, Orig: cs.Orig}
-				}, cs.Op+"/"+cs.Art.Codec)
+				}, cs.Op+"/"+cs.Art.Codec, cs.Op == "none" || cs.Op == "delete" || cs.Op == "truncate" || (cs.Op == "bitflip" && cs.Art.Alg == "ed25519"))
 			}
 		},
 	}
@@ -361,7 +433,7 @@ func c06FieldAlternatives(kind string) []kv {
 func c06RewriteSub() *engine.Sub {
 	return &engine.Sub{
 		Name:  "structured-rewrites",
-		Rule:  "envelopes rebuilt with the harness' own assembler: every payload field replaced by every alternative value or dropped while keeping the old signature; the same SigPayload signed by another key of the same and of every other algorithm; signed by the issuer and by another key of its algorithm with the signature in the other encodings of its family (ECDSA: fixed-width r||s, s||r, DER; secp256k1 additionally the 65-byte compact recoverable form with every header byte class; Ed25519/RSA: reversed and doubled); the header replaced by every other algorithm's header, truncated, extended, emptied, both with the old signature and re-signed by the issuer; the signature truncated to every length, emptied, extended; signature and header taken from another valid token of the same issuer; a forged payload (other audience / command) that embeds the genuine signature followed by the genuine signed bytes in its nonce or metadata, under the genuine signature; an issuer string that names the victim followed by '#', '?', '/' and another key or DID, signed by that other key. Every decoder must reject, or return the original content with an independently verifiable signature; non-trivial = all",
+		Rule:  "envelopes rebuilt with the harness' own assembler: every payload field replaced by every alternative value or dropped while keeping the old signature; the same SigPayload signed by another key of the same and of every other algorithm; signed by the issuer and by another key of its algorithm with the signature in the other encodings of its family (ECDSA: fixed-width r||s, s||r, DER; secp256k1 additionally the 65-byte compact recoverable form with every header byte class; Ed25519/RSA: reversed and doubled); the header replaced by every other algorithm's header, truncated, extended, emptied, or given another payload-encoding segment (DAG-JSON, raw, DAG-PB, CBOR), with the old signature, re-signed by the issuer, and - DAG-JSON - signed by the issuer over the DAG-JSON form of the SigPayload; the signature truncated to every length, emptied, extended; signature and header taken from another valid token of the same issuer; a forged payload (other audience / command) that embeds the genuine signature followed by the genuine signed bytes in its nonce or metadata, under the genuine signature; an issuer string that names the victim followed by '#', '?', '/' and another key or DID, signed by that other key. Every decoder - including the container readers, with and without such a 'pinning' invocation next to the entry - must reject, or return the original content with an independently verifiable signature; non-trivial = all",
 		Bound: func(t string) string { return "2 kinds x 6 (quick) / 7 (thorough) algorithms" },
 		Gen: func(tier string, emit func(any) bool) {
 			algs := []string{"ed25519", "secp256k1", "p256", "p384", "p521", "rsa2048"}
@@ -419,6 +491,16 @@ func c06RewriteSub() *engine.Sub {
 					for _, hv := range []string{"empty", "truncated", "extended", "first-byte-changed", "unknown"} {
 						for _, resign := range []string{"header-replaced-old-sig", "header-replaced-resigned"} {
 							if !emit(&c06RewriteCase{Kind: kind, Alg: alg, Rw: resign, Arg: hv}) {
+								return
+							}
+						}
+					}
+					// the issuer's header with another payload-encoding segment (DAG-JSON, raw, DAG-PB), the signature made by the
+					// issuer over the SigPayload in the announced encoding where the harness has one: only signatures over the
+					// canonical DAG-CBOR encoding count
+					for _, enc := range []string{"payload-encoding-dag-json", "payload-encoding-raw", "payload-encoding-dag-pb", "payload-encoding-cbor"} {
+						for _, resign := range []string{"header-replaced-old-sig", "header-replaced-resigned", "header-replaced-signed-over-announced-encoding"} {
+							if !emit(&c06RewriteCase{Kind: kind, Alg: alg, Rw: resign, Arg: enc}) {
 								return
 							}
 						}
@@ -563,9 +645,17 @@ func c06RewriteSub() *engine.Sub {
 					hdr = headerFor(signer.Alg)
 				}
 				mutated = assemble(signer, sigPayloadNode(hdr, p.Tag, payload(es)))
-			case "header-replaced-old-sig", "header-replaced-resigned":
+			case "header-replaced-old-sig", "header-replaced-resigned", "header-replaced-signed-over-announced-encoding":
 				var h []byte
 				switch cs.Arg {
+				case "payload-encoding-dag-json":
+					h = append(append([]byte{}, p.Header[:len(p.Header)-1]...), 0xa9, 0x02)
+				case "payload-encoding-raw":
+					h = append(append([]byte{}, p.Header[:len(p.Header)-1]...), 0x55)
+				case "payload-encoding-dag-pb":
+					h = append(append([]byte{}, p.Header[:len(p.Header)-1]...), 0x70)
+				case "payload-encoding-cbor":
+					h = append(append([]byte{}, p.Header[:len(p.Header)-1]...), 0x51)
 				case "empty":
 					h = []byte{}
 				case "truncated":
@@ -584,9 +674,21 @@ func c06RewriteSub() *engine.Sub {
 					return
 				}
 				sp := sigPayloadNode(h, p.Tag, payload(p.Payload))
-				if cs.Rw == "header-replaced-old-sig" {
+				switch {
+				case cs.Rw == "header-replaced-old-sig":
 					mutated = assembleWithSig(p.Sig, sp)
-				} else {
+				case cs.Rw == "header-replaced-signed-over-announced-encoding" && cs.Arg == "payload-encoding-dag-json":
+					var buf bytes.Buffer
+					if err := dagjson.Encode(sp, &buf); err != nil {
+						ctx.Outcome("no-dag-json-form")
+						return
+					}
+					sig, err := key.Priv.Sign(buf.Bytes())
+					if err != nil {
+						panic(err)
+					}
+					mutated = assembleWithSig(sig, sp)
+				default:
 					mutated = assemble(key, sp)
 				}
 			case "signature-length":
